@@ -132,3 +132,91 @@ func condCalls(info *types.Info, body ast.Node, cond ast.Expr, pkgSuffix, name s
 func hasSuffix(s, suf string) bool {
 	return len(s) >= len(suf) && s[len(s)-len(suf):] == suf
 }
+
+// isParamOf: e is an identifier naming a parameter (or the receiver) of fi.
+func isParamOf(info *types.Info, fi *FuncInfo, e ast.Expr) bool {
+	id, ok := ast.Unparen(e).(*ast.Ident)
+	if !ok {
+		return false
+	}
+	obj := info.Uses[id]
+	if obj == nil {
+		return false
+	}
+	lists := []*ast.FieldList{fi.Decl.Type.Params, fi.Decl.Recv}
+	for _, l := range lists {
+		if l == nil {
+			continue
+		}
+		for _, f := range l.List {
+			for _, n := range f.Names {
+				if info.Defs[n] == obj {
+					return true
+				}
+			}
+		}
+	}
+	return false
+}
+
+func isFieldNamed(v *types.Var, name string) bool {
+	return v != nil && v.IsField() && v.Name() == name
+}
+
+// tupleDef: the local variable is defined exactly once, as the idx-th result of a call (`a, b := f(x)`).
+func tupleDef(info *types.Info, body ast.Node, obj types.Object) (call *ast.CallExpr, idx int) {
+	n := 0
+	ast.Inspect(body, func(nd ast.Node) bool {
+		as, ok := nd.(*ast.AssignStmt)
+		if !ok {
+			return true
+		}
+		for i, l := range as.Lhs {
+			id, ok := l.(*ast.Ident)
+			if !ok {
+				continue
+			}
+			o := info.Defs[id]
+			if o == nil {
+				o = info.Uses[id]
+			}
+			if o != obj {
+				continue
+			}
+			n++
+			if len(as.Rhs) == 1 && len(as.Lhs) > 1 {
+				if c, ok := ast.Unparen(as.Rhs[0]).(*ast.CallExpr); ok {
+					call, idx = c, i
+				}
+			}
+		}
+		return true
+	})
+	if n != 1 {
+		return nil, 0
+	}
+	return call, idx
+}
+
+// isModuleInitFunc: the expression (through once-defined locals) is the function value created by
+// NewFunc(<first result of getModuleInitDisposeName(...)>, ...), i.e. the module's init function.
+func isModuleInitFunc(info *types.Info, body ast.Node, e ast.Expr) bool {
+	e = throughLocals(info, body, e)
+	call, ok := ast.Unparen(e).(*ast.CallExpr)
+	if !ok || len(call.Args) == 0 {
+		return false
+	}
+	if fn := Callee(info, call); fn == nil || fn.Name() != "NewFunc" {
+		return false
+	}
+	id, ok := ast.Unparen(call.Args[0]).(*ast.Ident)
+	if !ok {
+		return false
+	}
+	src, idx := tupleDef(info, body, info.Uses[id])
+	if src == nil || idx != 0 {
+		return false
+	}
+	fn := Callee(info, src)
+	return fn != nil && fn.Name() == "getModuleInitDisposeName"
+}
